@@ -1209,10 +1209,9 @@ class SCFGIO:
                 raise TypeError("Block type not found.")
 
         seen = set()
-        q: Set[Tuple[str, BasicBlock]] = set()
-        # Order of elements doesn't matter since they're going to
-        # be sorted at the end.
-        q.update(scfg.graph.items())
+        # A list, since blocks that hold a dict or a subregion are not
+        # hashable.
+        q: List[Tuple[str, BasicBlock]] = list(scfg.graph.items())
 
         while q:
             key, value = q.pop()
@@ -1225,7 +1224,7 @@ class SCFGIO:
             if isinstance(value, RegionBlock):
                 assert value.subregion is not None
                 assert value.parent_region is not None
-                q.update(value.subregion.graph.items())
+                q.extend(value.subregion.graph.items())
                 blocks[key]["kind"] = value.kind
                 blocks[key]["contains"] = sorted(
                     [idx.name for idx in value.subregion.graph.values()]
